@@ -396,6 +396,11 @@ fn corpus() -> Vec<(u8, Vec<Reg>, Option<&'static str>)>
 	v.push((1, vec![r(0x100, 8), r(0x104, 2)], None));                    // `.addr` into an occupied region
 	v.push((1, vec![r(0x104, 2), r(0x100, 8)], None));                    // a region running into the next one
 	v.push((1, vec![r(0xFFFF_FFFE, 2)], Some(".du8 1;\n")));               // write past the end of the address space
+	// audit: beyond the bounds of the random layouts (at most 5 regions on 6 pages, regions of at most 0x201 bytes):
+	// 24 regions on 36 pages with every kind of gap, 40 one-byte regions on one page, one region of six blocks
+	v.push((1, (0..24u64).map(|i| r(0x2000_0000 + i * 0x180 + (i % 7), 1 + i % 3)).collect(), None));
+	v.push((1, (0..40u64).map(|i| r(0x1001 + i * 4, 1)).collect(), None));
+	v.push((1, vec![r(0x2000_0010, 1500)], None));
 	v
 }
 
